@@ -158,6 +158,12 @@ class Gen:
             return ('call', name, [self.tree(depth - 1), ('lit',) + lit_text(rng, rng.choice([0, 1, 2, 5, 31, 64, 80, -1, 1.5]))])
         if name == 'ROUND' and n == 2:
             return ('call', name, [self.tree(depth - 1), ('lit',) + lit_text(rng, rng.choice([0, 1, 2, 3, -1, -2, 15, 17, 330, -310, 1.5]))])
+        if name in ('EQ', 'GT', 'GTE', 'LT', 'LTE') and rng.random() < 0.25:
+            x, y = rng.choice(NEAR_PAIRS)
+            if rng.random() < 0.5:
+                x, y = y, x
+            return ('call', name, [('lit',) + lit_text(rng, x + 0 if isinstance(x, bool) else x),
+                                   ('lit',) + lit_text(rng, y + 0 if isinstance(y, bool) else y)])
         return ('call', name, [self.tree(depth - 1) for _ in range(n)])
 
 
@@ -236,6 +242,16 @@ async def eval_impl(cases):
                 deps_seen.append(None)
                 continue
             deps_seen.append(sorted(e.get_deps()))
+            # what the hub does when a port is enabled again or restarted: the expression is parsed again from its own text;
+            # evaluated on the same context it must give the same outcome
+            try:
+                e2 = expressions.parse(c['self_id'], str(e), role)
+                o1 = await _outcome(e, EvalContext(dict(c['values']), c['now_ms']), FakePort, ex)
+                o2 = await _outcome(e2, EvalContext(dict(c['values']), c['now_ms']), FakePort, ex)
+                if repr(o1) != repr(o2):
+                    REPARSE_DIFFS.append((text_of(t), str(e), _ctx_json(c), o1, o2))
+            except Exception as exn:  # noqa: BLE001
+                REPARSE_DIFFS.append((text_of(t), str(e), _ctx_json(c), 'reparse failed', '%s: %s' % (type(exn).__name__, exn)))
             try:
                 v = await e.eval(EvalContext(dict(c['values']), c['now_ms']))
                 if isinstance(v, (bool, int, float)):
@@ -255,6 +271,25 @@ async def eval_impl(cases):
     finally:
         core_ports.get = orig_get
     return out, deps_seen
+
+
+REPARSE_DIFFS = []
+
+
+async def _outcome(e, context, FakePort, ex):
+    try:
+        v = await e.eval(context)
+        if isinstance(v, float) and v != v:
+            return ('val', 'nan')
+        return ('ref', v.get_id()) if isinstance(v, FakePort) else ('val', type(v).__name__, repr(v))
+    except ex.ValueUnavailable:
+        return ('fail', 'unavail')
+    except ex.EvalSkipped:
+        return ('fail', 'skipped')
+    except ex.ExpressionEvalError:
+        return ('fail', 'err')
+    except Exception as exn:  # noqa: BLE001
+        return ('fail', type(exn).__name__)
 
 
 def coq_outcome(o):
@@ -293,6 +328,13 @@ def run_batch(ctx, res, cases, tag):
     t0 = time.time()
     results, deps_seen = asyncio.run(eval_impl(cases))
     t_impl = time.time() - t0
+    while REPARSE_DIFFS:
+        text, printed, cj, o1, o2 = REPARSE_DIFFS.pop()
+        res['violations'].append({
+            'key': {'kind': 'reparse-changes-evaluation'},
+            'what': 'expression %s prints as %r; parsed again from that text it evaluates to %r instead of %r on the same context'
+                    % (text, printed, o2, o1),
+            'case': {'expression': text, 'context': cj}, 'observed': [o1, o2]})
     rows, meta = [], []
     drows, dmeta = [], []
     for (c, t), d in zip(cases, deps_seen):
@@ -381,7 +423,24 @@ def regression_cases():
                              ('lit', '0', 0), ('lit', '5', 5)])),   # equal abscissae: stable sort
         (c, ('call', 'SGN', [('lit', '0.3', 0.3)])),
         (c, ('call', 'SGN', [('lit', '-0.5', -0.5)])),
-    ]
+    ] + near_pairs(c)
+
+
+NEAR_PAIRS = [(0.1 + 0.2, 0.3), (1700000000000, 1700000000500), (1e16, 1e16 + 2), (2 ** 53, 2 ** 53 + 1), (1.0, 1.0000000000000002),
+              (1e9, 1e9 + 0.5), (123456789.123, 123456789.124), (-1e12, -1e12 - 1), (0.0, -0.0), (0.0, 5e-324), (1, 1.0), (3, 3.0000000001),
+              (1e300, 1.0000000001e300), (True, 1.0000000001), (255, 255.00000001)]
+
+
+def near_pairs(c, fns=('EQ', 'GT', 'GTE', 'LT', 'LTE', 'MIN', 'MAX', 'SUB', 'MOD')):
+    """comparisons (and what is built on them) of operands that are different but relatively very close"""
+    out = []
+    for a, b in NEAR_PAIRS:
+        for f in fns:
+            for x, y in ((a, b), (b, a)):
+                ta, va = lit_text(None, x + 0 if isinstance(x, bool) else x)
+                tb, vb = lit_text(None, y + 0 if isinstance(y, bool) else y)
+                out.append((c, ('call', f, [('lit', ta, va), ('lit', tb, vb)])))
+    return out
 
 
 def gen_cases(ctx, n, table):
